@@ -256,6 +256,10 @@ fn check(prop: &str, tier: Tier) -> CheckOutcome {
                 );
             }
         } else {
+            if std::env::var("VERIF_DUMP_UNKNOWN").is_ok() {
+                // triage aid (never set by the registered commands)
+                eprintln!("UNKNOWN unit {i} {} :: {}", v.class, serde_json::to_string(&c).unwrap_or_default());
+            }
             unknown.push((i, c, v));
         }
     }
